@@ -151,7 +151,7 @@ def xsd_mutations(rng, text):
     outs.append(("facet-pattern", text.replace("</xs:schema>", '<xs:simpleType name="pt"><xs:restriction base="xs:string"><xs:pattern value="[a-z]+" /></xs:restriction></xs:simpleType></xs:schema>'), False))
     outs.append(("facet-range", text.replace("</xs:schema>", '<xs:simpleType name="rt"><xs:restriction base="xs:integer"><xs:minInclusive value="3" /></xs:restriction></xs:simpleType></xs:schema>'), True))
     outs.append(("facet-length-int", text.replace("</xs:schema>", '<xs:simpleType name="rl"><xs:restriction base="xs:token"><xs:length value="3" /></xs:restriction></xs:simpleType></xs:schema>'), True))
-    outs.append(("default-attr", text.replace('<xs:attribute name="at0"', '<xs:attribute default="d" name="at0"', 1), False))
+    outs.append(("default-attr", text.replace('<xs:attribute name="at', '<xs:attribute default="d" name="at', 1), False))
     outs.append(("element-default", text.replace('<xs:element name="root"', '<xs:element name="root" default="x"', 1), True))
     outs.append(("min-occurs-2", text.replace('<xs:element name="e0"', '<xs:element minOccurs="2" maxOccurs="4" name="e0x"', 1), False))
     outs.append(("target-namespace", text.replace("<xs:schema ", '<xs:schema targetNamespace="urn:t" elementFormDefault="qualified" ', 1), False))
